@@ -86,7 +86,7 @@ META = dict(
     ],
     bounds=dict(
         quick="sizes 0-4; full depth-1 argument domain on transient objects; reduced domain for depth-2 and for the Session/flush/reload route",
-        thorough="full argument domain at depth 2 (transient) and at depth 1 in the Session/flush/reload route for all four ordering_list configurations; sizes 0-4 everywhere",
+        thorough="full argument domain at depth 2 (transient); Session/flush/reload route: all four ordering_list configurations, full argument domain at depth 1 for count_from=1, reorder_on_append and the list/set/dict proxies; sizes 0-4 everywhere",
     ),
 )
 
@@ -468,9 +468,14 @@ AP_PREFIX = dict(
 
 
 
-def _full(tier, route, depth):
+def _full(tier, route, depth, cfg=None):
+    """full (C38) argument domain or the reduced one"""
     if tier == "thorough":
-        return depth == 1 or route == "transient"
+        if route == "transient":
+            return True
+        # Session / flush / reload route: full domain at depth 1 for two ordering_list configurations and the
+        # plain list / set / dict proxies; the remaining configurations share the code path and get the reduced domain
+        return depth == 1 and cfg in ("cf1", "roa", "lvals", "svals", "dvals")
     return depth == 1 and route == "transient"
 
 
@@ -500,7 +505,7 @@ def group_cases(world, cfg, route, family, tier, part=0, parts=1):
     if quick_db and family in ("getslice", "getitem"):
         return
     for depth in (1, 2):
-        full = _full(tier, route, depth)
+        full = _full(tier, route, depth, cfg)
         small = quick_db or (depth == 2 and tier == "quick")
         if world == "ol":
             ops = ol_families(full)[family]
